@@ -33,6 +33,7 @@ ASSUMPTIONS = [
 ]
 
 MOCK = 'pywbem_mock/_wbemconnection_mock.py'
+OBJ = 'pywbem/_cim_obj.py'
 NS_HELPERS = ('_iparam_namespace_from_namespace',
               '_iparam_namespace_from_objectname')
 
@@ -185,6 +186,7 @@ def run(repo, rep, tier):
     adapter_keys_agree(repo, rep, 'C04.R11', lambda op: True, 100)
     unembedding_by_attribute_only(repo, rep)
     path_attached_after_properties(repo, rep)
+    sequence_types_agree(repo, rep)
     r1 = rep.rule('C04.R1', 'client IPARAMVALUE names = keys read by the '
                   'server-side adapter')
     r2 = rep.rule('C04.R2', 'None is omitted, everything else is sent')
@@ -991,6 +993,86 @@ def iparam_typed_by_name(repo, rep, ops):
                         'pywbem/_tupleparse.py', st.lineno,
                         'parameter names %s are converted to bool but no '
                         'operation sends a parameter of that name' % unknown)
+
+
+def _isinstance_types(t):
+    """(subject text, {type names}) of an isinstance(x, T | (T, ...)) test"""
+    if isinstance(t, ast.Call) and dotted(t.func) == 'isinstance' and \
+            len(t.args) == 2:
+        tt = t.args[1]
+        els = tt.elts if isinstance(tt, ast.Tuple) else [tt]
+        return norm(t.args[0]), {norm(x) for x in els}
+    return None, set()
+
+
+def sequence_types_agree(repo, rep):
+    """C04.R14: the sequence types that the parameter normalisers of the
+    operations let through unchanged are sequence types that the encoder of
+    intrinsic parameter values (module-level tocimxml()) encodes as an
+    array.  The direct path hands the value to the provider as it is; on
+    the CIM-XML path a sequence type the encoder does not know falls
+    through to the scalar encoder and the operation fails with TypeError
+    before a request is sent - same call, different outcome (e.g.
+    PropertyList=('a', 'b'))."""
+    from ..paths import return_paths
+    from ..cfg import GuardWalker
+    r14 = rep.rule('C04.R14', 'sequence types accepted for list-valued '
+                   'parameters are encoded as arrays')
+    SEQ = {'list', 'tuple', 'set', 'frozenset'}
+    enc = repo.module(OBJ).functions.get('tocimxml')
+    if enc is None:
+        raise AnalysisError('module-level tocimxml() vanished')
+    pv = [p_ for p_ in enc.params][0]
+    enc_types = set()
+    for n in walk_no_nested(enc.node):
+        if isinstance(n, ast.If) and any(
+                isinstance(x, (ast.For, ast.comprehension)) and
+                norm(x.iter) == pv
+                for b in n.body for x in ast.walk(b)):
+            for t, pol in GuardWalker._atoms(n.test, True):
+                subj, tys = _isinstance_types(t)
+                if pol and subj == pv:
+                    enc_types |= tys
+    if not enc_types:
+        raise AnalysisError('tocimxml(): array branch (isinstance test with '
+                            'a loop over the value) not found')
+    r14.functions.add(enc.fq)
+    n_norm = 0
+    for name, f in sorted(repo.module(OPS).functions.items()):
+        if not name.startswith('_iparam_'):
+            continue
+        ps = [p_ for p_ in f.params]
+        if not ps:
+            continue
+        paths = return_paths(f, max_paths=64) or []
+        passed = set()
+        for p_ in paths:
+            if p_.value is None or norm(p_.resolve(p_.value)) != ps[0]:
+                continue        # the value was replaced on this path
+            for t0, p0 in p_.facts:
+                for t, pol in GuardWalker._atoms(t0, p0):
+                    subj, tys = _isinstance_types(t)
+                    if pol and subj == ps[0]:
+                        passed |= tys & SEQ
+        if not passed:
+            continue
+        n_norm += 1
+        r14.sites += 1
+        r14.functions.add(f.fq)
+        missing = sorted(passed - enc_types)
+        r14.ob(not missing, name, {'passes_through': sorted(passed),
+                                   'encoder_array_types': sorted(enc_types)})
+        if missing:
+            rep.finding(r14, f.qualname, 'isinstance(%s, %s)' % (
+                ps[0], ', '.join(sorted(passed))), 'sequence-type', OPS,
+                f.node.lineno,
+                '%s() lets a %s through unchanged, but tocimxml() encodes '
+                'only %s as an array: over CIM-XML the operation raises '
+                'TypeError before sending, while the direct call works'
+                % (name, '/'.join(missing), '/'.join(sorted(enc_types))))
+    if n_norm < 1:
+        raise AnalysisError('C04.R14: no parameter normaliser that passes '
+                            'a sequence through was found')
 
 
 def unembedding_by_attribute_only(repo, rep):
